@@ -399,8 +399,14 @@ pub fn by_name(prop: &str) -> Option<Box<dyn crate::campaign::Campaign>> {
         "C01" => Some(Box::new(c01())),
         "C02" => Some(Box::new(c02())),
         "C03" => Some(Box::new(c03())),
-        "C04" => Some(Box::new(crate::faults::C04)),
-        "C05" => Some(Box::new(crate::faults::C05)),
+        "C04" => Some(Box::new(crate::campaign::Composite {
+            prop: "C04",
+            parts: vec![(8, Box::new(crate::faults::C04)), (2, Box::new(crate::policy::C11))],
+        })),
+        "C05" => Some(Box::new(crate::campaign::Composite {
+            prop: "C05",
+            parts: vec![(8, Box::new(crate::faults::C05)), (2, Box::new(crate::policy::C05PrecompilePanic))],
+        })),
         "C08" => Some(Box::new(c08())),
         "C09" => Some(Box::new(c09())),
         _ => None,
